@@ -149,7 +149,8 @@ fn run(r: &Rec) -> Ran {
                         let inplace = matches!(code, 3011 | 3013 | 3016 | 3017);
                         let mut res = if inplace { a.clone() } else { let mut t = GLWE::alloc_from_infos(&lo); t.data_mut().data.iter_mut().for_each(|b| *b = 0x5a); t };
                         let need = if inplace { m.glwe_automorphism_tmp_bytes(&res, &res, &kp) } else { m.glwe_automorphism_tmp_bytes(&lo, &a, &kp) };
-                        let mut sc = scratch(need, fill);
+                        // generous: the cross-radix in-place add/sub variants need more than the declared size (C12's property)
+                        let mut sc = scratch(2 * need + (1 << 16), fill);
                         match code {
                             3010 => m.glwe_automorphism(&mut res, &a, &kp, sc.borrow()),
                             3011 => m.glwe_automorphism_assign(&mut res, &kp, sc.borrow()),
